@@ -92,6 +92,31 @@ def cases(ctx: Ctx):
             every_op([fixed], f"rawsum{n}")
             every_op([fixed, good_state(rng)], f"rawsum{n}+good")
         every_op([bytes(n)], f"zeros{n}")
+    # 6. two-page capabilities: the first reply announces additional capabilities, the second exchange is answered with anything
+    caps_more = acdev.resp_frame(3, vb["caps"][:-2] + bytes([1, 0]), "crc")
+    seconds = [[]]
+    for ftype in range(0, 8):
+        seconds.append([acdev.resp_frame(ftype, vb["caps"], "crc")])
+        seconds.append([acdev.resp_frame(ftype, vb["caps"][:rng.randint(1, len(vb["caps"]))], "sum")])
+    for kind, body in vb.items():
+        seconds.append([acdev.resp_frame(3, body, "crc")])
+        seconds.append([acdev.resp_frame(rng.choice([2, 4, 5]), body[:rng.randint(1, len(body))], "crc")])
+    for n in (0, 1, 5, 12, 30):
+        seconds.append([bytes(rng.randrange(256) for _ in range(n))])
+    seconds.append([good_state(rng), acdev.resp_frame(5, vb["caps"], "crc")])
+    for sec in seconds:
+        out.append(("caps2", [caps_more] + sec, "caps-more+" + (f"{len(sec)}x{sec[0][9]:02x}/{sec[0][10]:02x}-len{len(sec[0])}" if sec and len(sec[0]) > 10 else "odd")))
+    # 7. two-step histories: an operation answered with an odd (but tolerated) frame, then every operation with a normally answering device
+    firsts = []
+    for n in range(1, 25):
+        firsts.append(acdev.resp_frame(3, vb["state"][:n], "crc" if n % 2 else "sum"))
+    for kind in ("caps", "props", "ack", "energy", "humidity"):
+        for n in sorted({1, 2, 3, len(vb[kind]) // 2, len(vb[kind]) - 1, len(vb[kind])}):
+            firsts.append(acdev.resp_frame(3, vb[kind][:n], "crc"))
+    for f in firsts:
+        for op1 in (("refresh",) if q else ("refresh", "apply", "toggle_display")):
+            for op2 in (OPS if not q else [OPS[(len(f) + k) % 5] for k in range(2)] + ["apply"]):
+                out.append((f"seq:{op1}>{op2}", [f], f"{op1} answered with {len(f)}-byte {f[10]:02x} frame, then {op2}"))
     # 5. mixes
     for _ in range(ctx.pick(300, 6000)):
         k = rng.randint(2, 5)
@@ -121,6 +146,8 @@ def collect(ctx: Ctx, cs):
     ac = Scripted()
     landev.LanDevice(loop, net, ac, version=2)
     vectors = []
+    vb0 = valid_bodies(ctx.rng)
+    stage2 = {"state": good_state(ctx.rng), "caps": acdev.resp_frame(3, vb0["caps"], "crc"), "ack": acdev.resp_frame(2, vb0["ack"], "crc")}
 
     async def go():
         for k, (op, frames, tag) in enumerate(cs):
@@ -130,9 +157,22 @@ def collect(ctx: Ctx, cs):
                 d.target_temperature = 23.5
             before = flags_of(d)
             ac.replies = [bytes(f) for f in frames]
+            ac.script = []
             raised = "none"
             try:
-                await getattr(d, op)()
+                if op == "caps2":
+                    ac.script = [[bytes(frames[0])], [bytes(f) for f in frames[1:]]]
+                    ac.replies = []
+                    await d.get_capabilities()
+                elif op.startswith("seq:"):
+                    first, *rest = op[4:].split(">")
+                    await getattr(d, first)()
+                    # from now on the appliance answers normally: state report, capabilities and property ack are all on offer
+                    ac.replies = [stage2["state"], stage2["caps"], stage2["ack"]]
+                    for nxt in rest:
+                        await getattr(d, nxt)()
+                else:
+                    await getattr(d, op)()
             except Exception as e:  # noqa: BLE001
                 raised = type(e).__name__
             try:
@@ -180,7 +220,8 @@ def run(ctx: Ctx) -> int:
     return ctx.finish(
         rule="responses of 6 kinds truncated to every length (checks recomputed, both styles, several frame types), count/size "
              "fields swept over 0..255, every response id with random bodies, 0xB5 with every frame type, empty/tiny/raw frames, "
-             "random mixes of good, truncated, bit-flipped and garbage frames; each as the reply to every exchange of "
+             "random mixes of good, truncated, bit-flipped and garbage frames; two-page capability queries whose second exchange is answered with "
+             "anything; two-step histories (an operation answered with a short/odd frame, then every operation with a normal device); each as the reply to every exchange of "
              "refresh/apply/get_capabilities/toggle_display/start_self_clean on a fresh device; distinct = (operation, frames)")
 
 
